@@ -62,3 +62,12 @@ package network
 //@   ensures wfCC(c)
 //@   invariant @loop 0: 0 <= $k && $k <= len(c.cache[height][hash]) && wfCC(c)
 //@   nopanic
+
+// C20 "every valid transaction in a received transaction batch reaches the pool exactly once": each transaction of the batch is
+// handed to its own goroutine; the goroutine must see the transaction it was started for.  (What the goroutines do is not
+// covered: T3.)
+//@ func (*ProtocolManager).handleTxsMsg
+//@   props C20
+//@   requires pm != nil && msg != nil
+// the rlp decoder allocates every element of a decoded transaction list (no element is a nil pointer): assumed
+//@   opt trust-pre=VerifyTxBody#0
